@@ -118,6 +118,9 @@ def suite_mixed(rng, tier, flavour):          # C12: one directory handed betwee
     for p in gen.damage_programs(rng, "astd", 2 if tier == "quick" else 30, exhaustive_cuts=False):
         yield (gen.mix_flavours(rng, p), ["sync", "astd", "tok"], {})
 
+def suite_late_commit(rng, tier, flavour):    # C20 / C14: commit or drop after the cache was cleared under the writer
+    yield from gen.late_commit_programs(rng, flavour, 100 if tier == "quick" else 1000)
+
 def suite_rot(rng, tier, flavour):            # C01 / C18: in-place rot between two retrievals in one process
     yield from gen.rot_programs(rng, flavour, 80 if tier == "quick" else 800)
 
@@ -156,7 +159,7 @@ REGISTRY = {
             "rule": "several writes to one key with fields (data, time incl. 2^128-1, JSON metadata trees, raw bytes, declared size, single/multi-hash integrity) drawn from small pools so that successive records differ in one field or repeat earlier values, via streamed writers and index::insert, read back by metadata/find/list after each; bucket bytes compared byte for byte (explicit times); default time checked against the call's wall-clock window."},
     "C17": {"flavours": Q3, "suites": [("refwrites", suite_refwrites), ("refcache", suite_refcache), ("meta", suite_meta), ("hist", suite_hist)],
             "rule": "both directions: buckets written by the python reference writer in several valid JSON spellings (spaces, \\uXXXX escapes, shuffled / extra / omitted optional fields) read by the library; complete reference-written caches (record + content file; integrity listing one to three hashes in any order, content under the strongest algorithm) read by key, by address, streamed and copied; library-written caches read by the naive reference reader (refcheck after every index write); bucket bytes and paths compared with the model byte for byte."},
-    "C20": {"flavours": Q3, "suites": [("crafted", suite_crafted), ("all", suite_all), ("abandon", suite_abandon), ("damage", suite_damage), ("cancel", suite_cancel)], "no_panic": True,
+    "C20": {"flavours": Q3, "suites": [("crafted", suite_crafted), ("all", suite_all), ("abandon", suite_abandon), ("damage", suite_damage), ("cancel", suite_cancel), ("late_commit", suite_late_commit)], "no_panic": True,
             "rule": "crafted checksum-valid records (odd integrity strings, non-object JSON, missing fields, 200-deep nesting), directories and dangling symlinks at bucket and content paths, declared-size chunkings, buckets with records cut at every byte length / garbage / invalid UTF-8 lines, plus the general and abandonment programs; every call under catch_unwind and a watchdog: any panic or hang of the implementation is a violation whatever the model says."},
     "C02": {"flavours": Q3, "suites": [("roundtrip", suite_roundtrip), ("roundtrip_ok", suite_roundtrip_ok)],
             "rule": "random programs of writes through every entry point (one-shot, streamed with random chunkings incl. empty/single-byte/decreasing, keyed and by address, with/without declared size, five algorithms, small/hostile keys, sizes 0..16 KiB+1 and occasionally 1 MiB-1/0/+1 and 3 MiB) each followed by reads by key, by address, streamed reads and metadata."},
@@ -164,7 +167,7 @@ REGISTRY = {
             "rule": "streamed writers with declared size smaller/equal/larger and declared integrity correct/wrong/other-algorithm/multi-hash, keyed and by address, prior key states absent/present/removed, followed by lookups."},
     "C09": {"flavours": Q3, "suites": [("removals", suite_removals)],
             "rule": "histories mixing writes with remove, remove_hash, remove_fully, clear over small and hostile keys (keys sharing content included), lookups of every known key/address and the listing afterwards."},
-    "C14": {"flavours": Q3, "suites": [("abandon", suite_abandon), ("cancel", suite_cancel)],
+    "C14": {"flavours": Q3, "suites": [("abandon", suite_abandon), ("cancel", suite_cancel), ("late_commit", suite_late_commit)],
             "rule": "writers dropped after creation / after some chunks / after a rejected commit, or left open, interleaved with successful operations; plus async writers whose writes are cancelled while the background task is in flight (started, polled once, dropped) before further chunks and commit; lookups, listing, and the final tree (including tmp/) compared."},
     "C16": {"flavours": Q3, "suites": [("dedup", suite_dedup)], "step_suites": [("rewrite_kill", steps.suite_rewrite_kill)],
             "rule": "programs re-writing equal data under the same and different keys through different entry points, flavours and all five algorithms; returned addresses (hashlib/libxxhash), lookups and the final tree (one file per address) compared; plus a strace kill sweep over re-writes of stored bytes (one-shot same / other key, by address, streamed with and without declared size): at every kill point the stored copy is present, byte-identical, and its key still reads it."},
